@@ -52,8 +52,8 @@ func main() {
 				sweepBudget, foreverBudget = b, b
 			}
 			fams := []*core.Family{
-				sweepFamily("sweep", sweepPrograms(tier), 120, sweepBudget),
-				sweepFamily("forever", foreverPrograms(tier), 120, foreverBudget),
+				sweepFamily("sweep", sweepPrograms(tier), 300, sweepBudget),
+				sweepFamily("forever", foreverPrograms(tier), 300, foreverBudget),
 			}
 			fams = append(fams, ampFamilies(tier)...)
 			if only := os.Getenv("C05_ONLY"); only != "" { // development aid: restrict to families with this prefix
